@@ -68,6 +68,9 @@ def peaks_all(V, dtype):
             continue
         dirs = peak_clauses(V, out, x, n, p)
         out.unchanged('x', x)
+        out.prove('at-least-two-reported-indices-for-a-non-constant-series', len(p) >= 2)
+        if len(p) < 2:
+            continue
         # max / min selections: exactly those reported indices that are local maxima / minima
         for ptype in ('max', 'min'):
             try:
